@@ -178,6 +178,8 @@ class Spec:
             rows = [norm_row(n, r) for r in case["tables"].get(n, {}).get("init", [])]
             self.cur[n] = list(rows)
             self.stored[n] = list(rows)
+        # a second, read-only profile (same schema) that process(source=…) takes its inputs from
+        self.source = {n: [norm_row(n, r) for r in (case.get("source") or {}).get(n, {}).get("init", [])] for n in NAMES}
 
     def table_step(self, st):
         """returns the error enum (or None); Python list semantics, nothing else"""
@@ -261,13 +263,31 @@ class Spec:
         calls = []
         tb, col = st.get("sel") or DEFAULT_SELECTOR
         keyf = [(j, f) for j, (f, _, fl) in enumerate(dict(SCHEMA_SPEC)[tb]) if ":key" in fl]
-        # the affected relations are cleared before the inputs are read
-        items = [] if tb in AFFECTED else self.cur[tb]
+        # the affected relations are cleared before the inputs are read; another profile's are not affected
+        if st.get("src"):
+            items = self.source[tb]
+            parse = self.source["parse"]
+        else:
+            items = [] if tb in AFFECTED else self.cur[tb]
+            parse = self.cur["parse"]          # FieldMapper(source=self) is built before the clearing
+        # FieldMapper._i_id_map: parse-id -> i-id of the source's parse relation, the last row of a parse-id wins
+        idmap = {}
+        for r in parse:
+            idmap[r[COLIDX["parse"]["parse-id"]]] = r[COLIDX["parse"]["i-id"]]
+        self.idmap_hits = [0, 0]
         for pos, item in enumerate(items):
             marks.append(len(out))
             resp = script[pos % len(script)]
             keys = [[f, json.loads(item[j])] for j, f in keyf]
-            i_id = int(dict(keys)["i-id"]["int"]) if "i-id" in dict(keys) else -1
+            kd = dict(keys)
+            if "i-id" in kd:
+                i_id = int(kd["i-id"]["int"])
+            elif "parse-id" in kd and ckey(kd["parse-id"]) in idmap:
+                i_id = int(json.loads(idmap[ckey(kd["parse-id"])])["int"])
+                self.idmap_hits[0] += 1
+            else:
+                i_id = -1
+                self.idmap_hits[1] += 1
             calls.append([json.loads(item[COLIDX[tb][col]]), keys])
             parse_id = max(parse_id + 1, i_id)
             run = resp.get("run")
@@ -340,7 +360,7 @@ def simulate(case):
         elif k == "process":
             err = None
             tb = (st.get("sel") or DEFAULT_SELECTOR)[0]
-            nit = 0 if tb in AFFECTED else len(spec.cur[tb])
+            nit = len(spec.source[tb]) if st.get("src") else 0 if tb in AFFECTED else len(spec.cur[tb])
             if any("results" not in st["script"][pos % len(st["script"])] for pos in range(nit)):
                 # TestSuite.process reads response['results'] itself: such a response is not a valid
                 # processor response; the run is aborted with KeyError and what it leaves is not specified
@@ -350,6 +370,7 @@ def simulate(case):
             info["produced"] = prod
             info["calls"] = calls
             info["marks"] = spec.marks
+            info["idmap"] = list(spec.idmap_hits)
             info["before"] = {n: list(spec.cur[n]) for n in NAMES}
             for n in AFFECTED:
                 spec.cur[n] = []
@@ -724,6 +745,8 @@ def random_history(rng, long=False):
     for n in used:
         k = rng.choice([0, 0, 1, 2, 3, 3, 4, 5, 6])
         tables[n] = {"init": gen.rows(n, k), "gz": k > 0 and rng.random() < 0.35}
+        if k > 0 and not tables[n]["gz"] and rng.random() < 0.2:
+            tables[n]["nonl"] = True
         if k == 0 and rng.random() < 0.5:
             tables[n]["nofile"] = True
         sizes[n] = k
@@ -881,17 +904,29 @@ def process_case(rng):
         steps.append(with_obs({"k": "append", "t": t, "row": gen.row(t)}, gen))
     if rng.random() < 0.2:
         steps.append(with_obs({"k": "setitem", "t": "item", "i": 0, "row": gen.row("item")}, gen))
+    source = source_profile(gen, rng) if rng.random() < 0.35 else None
+    sel = gen.selector() if rng.random() < 0.5 else None
+    if source is not None:
+        # the transfer / generate set-up: inputs are the results (or parse rows, or items) of ANOTHER profile
+        sel = rng.choice([["result", "mrs"], ["result", "mrs"], ["parse", "error"], None, ["item", "i-input"], ["nosuch", "x"]])
     steps.append(with_obs({"k": "process", "b": b, "gz": rng.random() < 0.3, "script": script,
-                           "sel": gen.selector() if rng.random() < 0.5 else None, "nogz": rng.random() < 0.5}, gen))
+                           "sel": sel, "nogz": rng.random() < 0.5, "src": source is not None,
+                           "fm": rng.choice([None, None, "fresh"])}, gen))
     steps.append(with_obs({"k": "commit"}, gen))
     steps.append(with_obs({"k": "reopen"}, gen))
     if rng.random() < 0.4:
         fm = rng.choice([None, "shared", "shared"])
-        steps[-3]["fm"] = fm
+        if source is None:           # (a mapper built without the source has no _i_id_map)
+            steps[-3]["fm"] = fm
+        else:
+            fm = None
         steps.append(with_obs({"k": "process", "b": rng.choice([0, 1, 1000]), "gz": rng.random() < 0.3,
                                "script": gen.script(), "fm": fm}, gen))
         steps.append(with_obs({"k": "commit"}, gen))
-    return {"kind": "process", "tables": tables, "steps": steps}
+    case = {"kind": "process", "tables": tables, "steps": steps}
+    if source is not None:
+        case["source"] = source
+    return case
 
 
 def linebreak_cases():
@@ -1139,6 +1174,23 @@ def lifetime_cases():
                "steps": [with_obs(json.loads(json.dumps(st)), gen, 4) for st in steps]}
 
 
+def source_profile(gen, rng):
+    """a read-only second profile: items, parse rows (parse-id -> i-id; a repeated parse-id, the last one wins;
+    not every parse-id of the results is listed), result rows keyed by parse-id only"""
+    I = lambda n: {"int": str(n)}
+    S = lambda x: {"str": cps(x)}
+    items = [[I(i), S(gen.text() or "x"), None] for i in rng.sample([1, 2, 3, 5, 8, 13, -4], rng.choice([0, 1, 2, 3]))]
+    pids = rng.sample([0, 1, 2, 3, 7, 20], rng.choice([1, 2, 3, 4]))
+    parse = [[I(p), I(0), I(rng.choice([1, 2, 3, 40, 5, -2])), I(1), None, None] for p in pids]
+    if parse and rng.random() < 0.5:
+        parse.append([I(pids[0]), I(0), I(99), I(1), None, None])        # the same parse-id again
+    rp = [rng.choice(pids + [55, 56]) for _ in range(rng.choice([0, 1, 2, 3, 4]))]
+    result = [[I(p), I(j), S("mrs%d" % j), None] for j, p in enumerate(rp)]
+    return {"item": {"init": items, "gz": bool(items) and rng.random() < 0.3},
+            "parse": {"init": parse, "gz": rng.random() < 0.3},
+            "result": {"init": result, "gz": bool(result) and rng.random() < 0.3}}
+
+
 def plumbing_cases():
     """deterministic block (round 6): (a) process() with every selector variant — default, the default spelled
     out, another column, another relation (no i-id among its keys), a relation processing clears, unknown
@@ -1188,6 +1240,23 @@ def plumbing_cases():
                           "result": {"init": [[I(1), I(0), S("old"), None]], "gz": gz},
                           "run": {"init": [], "gz": False, "nofile": True},
                           "memo": {"init": [], "gz": False, "nofile": bool(j % 3)}}}
+    # process(source=another profile): results keyed by parse-id only (FieldMapper._i_id_map: hit, repeated parse-id,
+    # miss), parse rows (i-id among the keys), items; pending rows here; the source must stay untouched
+    src = {"item": {"init": [it(11, "src item a"), it(12, "src item b")], "gz": False},
+           "parse": {"init": [[I(0), I(0), I(11), I(1), None, None], [I(3), I(0), I(12), I(1), None, None],
+                              [I(0), I(0), I(40), I(1), None, None]], "gz": True},
+           "result": {"init": [[I(3), I(0), S("m3"), None], [I(0), I(0), S("m0"), None], [I(0), I(1), S("m0b"), None],
+                               [I(77), I(0), S("orphan"), None]], "gz": False}}
+    for j, sel in enumerate([["result", "mrs"], ["parse", "error"], None, ["result", "nosuch"]]):
+        gz = bool(j % 2)
+        steps = [{"k": "append", "t": "item", "row": it(9, "pending item")},
+                 {"k": "append", "t": "result", "row": [I(1), I(5), S("pending result"), None]},
+                 {"k": "process", "b": [0, 1000, 2, 1][j], "gz": gz, "script": script, "sel": sel, "src": True,
+                  "fm": [None, "fresh", None, None][j]},
+                 {"k": "commit"}, {"k": "reopen"}]
+        yield {"kind": "source", "source": src, "steps": [with_obs(json.loads(json.dumps(st)), gen, 4) for st in steps],
+               "tables": {"item": {"init": item3, "gz": gz},
+                          "result": {"init": [[I(1), I(0), S("old"), None]], "gz": gz}}}
     for gz in (False, True):
         for mixed in (False, True):
             pre = [{"k": "extend", "t": "item", "rows": [it(7, "p7"), it(8, "p8")]}] if mixed else []
@@ -1222,6 +1291,44 @@ def plumbing_cases():
             yield {"kind": "plumbing", "tables": {"item": {"init": item3, "gz": gz}}, "steps": out}
 
 
+def nonl_cases():
+    """deterministic block (F61, fixed by b478bc1): a plain relation file whose last line lacks the final newline
+    (1, 2, 3 rows; also the empty file, which counts as terminated) x histories that append / extend / assign /
+    commit / reload / involve a second suite / process; every history ends with commit, commit, reopen"""
+    gen = Gen(__import__("random").Random(61))
+    S = lambda x: {"str": cps(x)}
+    I = lambda n: {"int": str(n)}
+    nt = lambda i, x: [I(i), S(x)]
+    it = lambda i, x: [I(i), S(x), None]
+    A = lambda i: {"k": "append", "t": "note", "row": nt(i, "a%d" % i)}
+    hists = [
+        [A(10)],
+        [{"k": "extend", "t": "note", "rows": [nt(11, "e1"), nt(12, "e2")]}],
+        [A(10), {"k": "commit"}, A(13)],
+        [{"k": "setitem", "t": "note", "i": -1, "row": nt(14, "set")}],
+        [{"k": "setitem", "t": "note", "i": -1, "row": nt(14, "set")}, A(15)],
+        [A(10), {"k": "reload"}, A(16)],
+        [{"k": "reopen"}, A(17), {"k": "commit"}, {"k": "extend", "t": "note", "rows": [nt(18, "x")]}],
+        [{"k": "fcommit", "t": "note", "ops": [{"k": "append", "row": nt(19, "foreign")}], "then": "reload"}, A(20)],
+        [A(21), {"k": "fcommit", "t": "note", "ops": [{"k": "append", "row": nt(22, "foreign")}], "then": "reopen"}, A(23)],
+        [{"k": "append", "t": "item", "row": it(24, "item too")}, A(25)],
+        [{"k": "append", "t": "item", "row": it(26, "in")},
+         {"k": "process", "b": 1000, "gz": False, "nogz": True,
+          "script": [{"results": [{"result-id": I(0), "mrs": S("m")}]}]}, A(27)],
+        [{"k": "setslice", "t": "note", "sl": [None, None, None], "rows": []}, A(28)],
+    ]
+    tail = [{"k": "commit"}, {"k": "commit"}, {"k": "reopen"}]
+    for n in (1, 2, 3, 0):
+        init = [nt(i + 1, "s%d" % (i + 1)) for i in range(n)]
+        for hi, h in enumerate(hists):
+            if n == 0 and hi in (3, 4):
+                continue
+            tables = {"note": {"init": init, "gz": False, "nonl": True},
+                      "item": {"init": [it(1, "i1")], "gz": False, "nonl": bool(hi % 2)}}
+            yield {"kind": "nonl", "tables": tables,
+                   "steps": [with_obs(json.loads(json.dumps(st)), gen, n + 1) for st in h + tail]}
+
+
 def negindex_cases():
     """t[i] = row below -len (F31, fixed by d65eea1: must be an IndexError like a list)"""
     gen = Gen(__import__("random").Random(31))
@@ -1238,7 +1345,7 @@ def negindex_cases():
 class C10(Check):
     pid = "C10"
     props_modules = ["Verif.C10.Props", "Verif.C10.ComposeProps", "Verif.C10.IterProps"]
-    quick_cases = 280
+    quick_cases = 250
     search_budget = {"quick": 200, "thorough": 5000}
     thorough_cases = 3000
     rule = ("one case = one history over a profile with six relations (item, note, parse, result, run, edge), "
@@ -1258,7 +1365,12 @@ class C10(Check):
             "without a file, an iterator held across every kind of table operation, TestSuite.select_from / "
             "select(cast=False) after every step, a relation that is not in the schema; the same dimensions at random "
             "(selector ~1/2 of process steps, fieldmapper=None/fresh/shared, hold 20% of table operations); the last "
-            "row of every observed table is read through the whole Row interface.  "
+            "row of every observed table is read through the whole Row interface.  Round 7: process(source=a second, "
+            "read-only profile of the same schema) in 4 deterministic histories per run and ~35% of the process cases: "
+            "inputs = the source's results (keyed by parse-id only: FieldMapper._i_id_map with hit / repeated parse-id / "
+            "miss), parse rows or items; the source must be unchanged afterwards.  F61: 46 deterministic histories per run "
+            "on plain relation files whose last line lacks the final newline (1/2/3 rows; the empty file) x append / "
+            "extend / setitem / commit / reload / second suite / process, and ~20% of the random plain tables.  "
             "A case is non-trivial if it has a step; distinct by JSON text.")
     assumptions = [
         "abstract model (Props.lean): a relation file is the list of its rows, gzip a flag, the record codec the "
@@ -1306,7 +1418,7 @@ class C10(Check):
               ("SuiteInit", "TestSuite.__init__"), ("SuiteInTransaction", "TestSuite.in_transaction"),
               ("SuiteGetitem", "TestSuite.__getitem__"), ("SelectFrom", "TestSuite.select_from"),
               ("Reload", "TestSuite.reload"), ("Commit", "TestSuite.commit"), ("Process", "TestSuite.process"),
-              ("AddRow", "_add_row"),
+              ("AddRow", "_add_row"), ("EndsWithNewline", "_ends_with_newline"),
               ("MapperInit", "FieldMapper.__init__"), ("MapperMap", "FieldMapper.map"),
               ("MapParse", "FieldMapper._map_parse"), ("MapResult", "FieldMapper._map_result"),
               ("MapEdge", "FieldMapper._map_edge"), ("MapperCleanup", "FieldMapper.cleanup")]
@@ -1330,7 +1442,8 @@ class C10(Check):
             if isinstance(obj, property):
                 obj = obj.fget
             return obj
-        builtins_pinned = {"min", "max", "len", "enumerate", "reversed", "sorted", "any", "all", "list", "range"}
+        builtins_pinned = {"min", "max", "len", "enumerate", "reversed", "sorted", "any", "all", "list", "range",
+                           "_ends_with_newline"}
 
         def consts(fn):
             fdef = ast.parse(textwrap.dedent(inspect.getsource(fn))).body[0]
@@ -1410,6 +1523,7 @@ class C10(Check):
         yield from negstep_cases()
         yield from lifetime_cases()
         yield from plumbing_cases()
+        yield from nonl_cases()
         if tier == "quick":
             yield from exhaustive_cases(rng, 2)
         else:
@@ -1521,8 +1635,24 @@ class C10(Check):
                 rows = [[py_val(v) for v in r] for r in tab["init"]]
                 if rows:
                     tsdb.write(d, name, rows, schema[name], gzip=bool(tab.get("gz")))
+                    if tab.get("nonl") and not tab.get("gz"):
+                        # a plain relation file whose last line lacks the final newline (hand-edited, other tools)
+                        with open(os.path.join(d, name), "rb") as fh:
+                            data = fh.read()
+                        assert data.endswith(b"\n")
+                        with open(os.path.join(d, name), "wb") as fh:
+                            fh.write(data[:-1])
                 elif tab.get("nofile") and not mk:
                     os.remove(os.path.join(d, name))      # a profile without a file for this relation
+            src_ts = None
+            if case.get("source") is not None:
+                dsrc = tempfile.mkdtemp(prefix="q", dir=self.base)
+                tsdb.initialize_database(dsrc, schema, files=True)
+                for name, tab in case["source"].items():
+                    rows = [[py_val(v) for v in r] for r in tab["init"]]
+                    if rows:
+                        tsdb.write(dsrc, name, rows, schema[name], gzip=bool(tab.get("gz")))
+                src_ts = itsdb.TestSuite(dsrc)
             ts = itsdb.TestSuite(d)
             out = [self.observe(ts, d, {"ot": list(NAMES), "qs": []}, None)]
             out[0]["P"] = None
@@ -1580,8 +1710,10 @@ class C10(Check):
                         kw["selector"] = tuple(st["sel"])
                     if not st["gz"] and st.get("nogz"):
                         del kw["gzip"]          # default gzip=False
+                    if st.get("src"):
+                        kw["source"] = src_ts
                     if st.get("fm") == "fresh":
-                        kw["fieldmapper"] = itsdb.FieldMapper(source=ts)
+                        kw["fieldmapper"] = itsdb.FieldMapper(source=src_ts if st.get("src") else ts)
                     elif st.get("fm") == "shared":          # ONE mapper object for every process() of the history
                         if shared_fm is None:
                             shared_fm = itsdb.FieldMapper()
@@ -1676,6 +1808,11 @@ class C10(Check):
                 if calls is not None:
                     o["calls"] = calls
                     o["P"] = phases
+                    if st.get("src"):
+                        # the source profile as a fresh TestSuite sees it afterwards, and as the source object shows it
+                        fs = itsdb.TestSuite(dsrc)
+                        o["srcview"] = {n: [[trow(r) for r in fs[n]], [trow(r) for r in src_ts[n]],
+                                            bool(src_ts[n]._in_transaction)] for n in case["source"]}
                 out.append(o)
             return out
         finally:
@@ -1712,7 +1849,8 @@ class C10(Check):
         for n in NAMES:
             tab = case["tables"].get(n, {"init": [], "gz": False})
             tables.append({"width": WIDTH[n], "file": [in_row(n, r) for r in tab["init"]],
-                           "gz": bool(tab.get("gz")) and len(tab["init"]) > 0})
+                           "gz": bool(tab.get("gz")) and len(tab["init"]) > 0,
+                           "nl": not (tab.get("nonl") and tab["init"] and not tab.get("gz"))})
         schema = [{"name": n, "fields": [{"name": f, "int": dt == ":integer", "key": ":key" in fl, "dt": dt}
                                          for f, dt, fl in fs]} for n, fs in SCHEMA_SPEC]
         codec = [cps(text) for text, _ in sorted(ids.items(), key=lambda kv: kv[1])]
@@ -1771,6 +1909,13 @@ class C10(Check):
                 m["b"] = 1000 if st["b"] is None else st["b"]      # TestSuite.process default (pinned: c10Defaults)
                 m["gz"] = st["gz"]
                 m["sel"] = st.get("sel")
+                m["src"] = None
+                if st.get("src"):
+                    m["src"] = []
+                    for n in NAMES:
+                        tab = (case.get("source") or {}).get(n, {"init": [], "gz": False})
+                        m["src"].append({"width": WIDTH[n], "file": [in_row(n, r) for r in tab["init"]],
+                                         "gz": bool(tab.get("gz")) and len(tab["init"]) > 0})
                 m["script"] = [{"top": sdict({key: t[key] for key in t if key not in ("results", "run", "chart")}),
                                 "results": [sdict(r) for r in t["results"]] if "results" in t else None,
                                 "run": sdict(t["run"]) if "run" in t else None,
@@ -1859,6 +2004,8 @@ class C10(Check):
             cell_code(ckey(norm_cell(":string", v)), ids, add=True)
         for n in NAMES:
             for r in case["tables"].get(n, {"init": []})["init"]:
+                add(n, r)
+            for r in (case.get("source") or {}).get(n, {"init": []})["init"]:
                 add(n, r)
         for st in case["steps"]:
             k = st["k"]
@@ -2038,6 +2185,10 @@ class C10(Check):
                 if [[ckey(norm_cell(":string", c[0])), [[a, ckey(b)] for a, b in c[1]]] for c in o.get("calls", [])] != \
                         [[ckey(c[0]), [[a, ckey(b)] for a, b in c[1]]] for c in info["calls"]]:
                     fail(si, "processor was not called once per item in order", (o.get("calls"), info["calls"]))
+            if k == "process" and o.get("srcview") is not None:
+                for n, (fresh_rows, shown, tx) in o["srcview"].items():
+                    if keys(fresh_rows) != spec0.source[n] or keys(shown) != spec0.source[n] or tx:
+                        fail(si, "process(source=…) changed the source profile", n)
             # --- processing, item by item (seen from the callback): memory = previous rows (none for the
             # cleared relations) + rows produced so far, each once; a table without pending rows = its file
             if k == "process" and o["e"] is None and o.get("P") is not None:
@@ -2063,7 +2214,7 @@ class C10(Check):
                 prev_gz[n] = t["gz"]
         return fails[:3]
 
-    # ---- known findings: none open (F03 F04 F05 F31 F32 F34 F52 are fixed; witnesses in corpus/C10)
+    # ---- known findings: none open (F03 F04 F05 F31 F32 F34 F52 F61 are fixed; witnesses in corpus/C10)
     def classify(self, case, failure):
         return None
 
@@ -2080,6 +2231,8 @@ class C10(Check):
         inc("steps:%s" % min(len(case["steps"]), 30))
         for n, tab in case["tables"].items():
             inc("init_rows:%d" % len(tab["init"]))
+            if tab.get("nonl") and tab["init"] and not tab.get("gz"):
+                inc("stored:no_final_newline")
             inc("stored:" + ("gzip" if tab.get("gz") and tab["init"] else "no_file" if tab.get("nofile") and not tab["init"]
                              else "plain"))
         inc("tables_used:%d" % len(case["tables"]))
@@ -2116,6 +2269,9 @@ class C10(Check):
                                          "eq_produced" if bsz == p else "gt_produced"))
                 inc("process_gzip:%s" % st["gz"])
                 inc("process_fieldmapper:%s" % (st.get("fm") or "default"))
+                inc("process_source:" + ("other_profile" if st.get("src") else "self"))
+                inc("process_i_id_from_map", (info.get("idmap") or [0, 0])[0])
+                inc("process_i_id_not_in_map", (info.get("idmap") or [0, 0])[1])
                 if info.get("aborted"):
                     inc("process_response_without_results")
                 inc("process_sexp_cells", sum(1 for t in st["script"] for e in t.get("chart", [])
